@@ -14,7 +14,7 @@ Definition cmom_gen (f : string) (args : list Qc) (k : nat) : Qc :=
   | [a; b] =>
       if String.eqb f "Normal" then normal_get_moment a b k
       else if String.eqb f "Uniform" then uniform_get_moment a b k
-      else if String.eqb f "Laplace" then laplace_get_moment a b k
+      else if String.eqb f "Laplace" then laplace_get_moment b a k   (* arguments arrive as [b; mu] *)
       else if String.eqb f "Gamma" then gamma_get_moment a b k
       else if String.eqb f "Beta" then beta2_get_moment a b k
       else 0%Qc
